@@ -51,7 +51,7 @@ def run_semantic(ctx, module, level, rule, flags_list, relation, origins, extra,
             for m in r["mismatches"][:20]:
                 ctx.mismatches.append({"op": m.get("op"), "program": m.get("program"), "impl": str(m.get("impl"))[:500],
                                        "model": str(m.get("model"))[:500]})
-            extra += [m["program"] for m in r["mismatches"][:40] if m.get("program")]
+            extra += [m["program"] for m in r["mismatches"][:40] if isinstance(m.get("program"), str)]
             extra += list(r.get("extra_programs", []))[:40]
             ctx.cov["samples"].append({"correspondence": name, "evaluations": r["evaluations"], "nontrivial": r["nontrivial"]})
     for g in generators:
